@@ -11,3 +11,6 @@ import Dm.Props.C10
 #print axioms Dm.Props.C10.eval_variant_arms_same
 #print axioms Dm.Props.C10.eval_variant_arms_unit
 #print axioms Dm.Props.C10.eval_variant_arms_diff
+#print axioms Dm.Props.C10.not_enum_maps_fields
+#print axioms Dm.Props.C10.not_enum_unit_variant
+#print axioms Dm.Props.C10.not_enum_result_iff_unit_variant
